@@ -274,4 +274,57 @@ PROPS = {
         rule="~60 boundary levels + 200 (quick) / 2000 (thorough) random levels x {new, new_two_sided, new_upper, new_lower, TryFrom<f64>, TryFrom<f32>}, accessor table of "
              "24+ confidences, all ordered pairs for partial_cmp and the five operators; non-trivial = all; distinct by sha1 of the input",
     ),
+    "C12": dict(
+        modules=["StatsCI.Properties.C12"],
+        anchors=["src/proportion.rs", "src/quantile.rs", "src/stats.rs"],
+        needs_crit=True, exhaustive=True, exact_ops=set(),
+        technique="Lean 4 theorems (duality between the Wilson interval and the score acceptance region; coverage sum identity; order-statistic counting form) + exact summation over all outcomes of the implementation's own intervals",
+        level_text="Kernel-checked theorems over the model at exact arithmetic: p is in the Wilson interval of k iff (p - k/n)^2 <= z^2 p(1-p)/n (and the one-sided "
+                   "analogues), hence the exact coverage is the binomial probability of the score acceptance region restricted to 2 <= k <= n-2; the event "
+                   "'order statistics at ranks lo, hi enclose xi' is lo+1 <= #{X <= xi} and #{X < xi} <= hi. The numerical clause is decided by summing "
+                   "Bin(n,p)(k) over ALL outcomes k of the intervals the implementation returns (each compared with the model's interval for the same k), on a "
+                   "fine grid of p resp. q, against the documented slacks of spec/slack.json.",
+        level_note="Partial: 'coverage is near nominal' is a numerical fact, evaluated (not proved) from the proved structural form; that B ~ Bin(n,q) for a "
+                   "continuous population is textbook probability, not in Mathlib. Binomial weights in f64 by a log-space recurrence (relative error ~ n 2^-52).",
+        rule="n in {20,37,60,100,250,600} (quick) / 21 values to 3000 (thorough) x levels {0.8,0.9,0.95,0.99} x three kinds: all k in 0..n per line, p on a "
+             "400-2000 point grid; quantile ranks for n in {20,50,100,400} (quick) / 8 values to 3000, q on a 100/400-point grid; one line = one (n, confidence), "
+             "exhaustive in k; distinct by sha1 of the input",
+        assumptions=["B ~ Bin(n, q) for a continuous population (literature)", "documented slacks in spec/slack.json were calibrated on the verified model"],
+    ),
+    "C11": dict(
+        modules=["StatsCI.Properties.C11"],
+        anchors=["src/mean.rs", "src/comparison.rs", "src/proportion.rs", "src/quantile.rs", "src/stats.rs", "src/error.rs", "src/interval.rs"],
+        needs_crit=True, exact_ops="all",
+        technique="Lean 4 theorems (totality and error classes from the guard structure, for every carrier; NaN/inf propagation over reals extended with NaN and infinities) + differential correspondence on a malformed-input stream with overflow checks on",
+        level_text="Kernel-checked theorems: for EVERY carrier (no arithmetic laws beyond 'n-1 > 0 for n >= 2') and every valid confidence, each interval-computing "
+                   "entry point of the model returns the documented error for too few samples / non-positive data / invalid counts / invalid quantile / unequal "
+                   "lengths and never panics except for the documented classes (sorting incomparable elements, capacity overflow, Stats::new with k > n); an Ok "
+                   "interval satisfies not(lo > hi). Over reals extended with NaN and +-inf: any NaN or infinite observation yields InvalidInputData, NaN quantile "
+                   "yields InvalidQuantile, and every Ok interval has finite (harmonic: positive or +inf), ordered bounds. The model is tied to the code on a "
+                   "malformed stream (empty, singleton, constant, NaN, +-inf at every position, zero / negative, huge / tiny magnitudes, k > n, k or n-k in {0,1}, "
+                   "q outside (0,1) or NaN, mismatched lengths) through every entry point, all kinds, levels 0.001..0.9999, in a build with overflow checks; each "
+                   "line carries the expected error class and every Ok interval of the implementation is checked for NaN / inverted bounds.",
+        level_note="Trusted: Lean kernel + 3 standard axioms; IEEE comparison/propagation rules are modelled by the XR carrier (not verified against hardware); "
+                   "finite-range effects (x^2 overflowing, underflow) exist only in the Float instance and are checked by execution.",
+        rule="12 confidences x {n in 0..1} x 8 entry points, constant data (5 values x 4 sizes), NaN/+inf/-inf at each of 6 positions x 7 entry points, "
+             "huge/tiny magnitudes, non-positive data, 5 length mismatches, 11 (n,k) edge pairs, 6 invalid quantiles x 5 entry points, n in 0..3 for quantiles, "
+             "plus random extreme-range valid inputs; non-trivial = all (each line is an invalid or degenerate input class); distinct by sha1 of the input",
+    ),
+    "C16": dict(
+        modules=["StatsCI.Properties.C16"],
+        anchors=["src/mean.rs", "src/comparison.rs", "src/stats.rs", "src/utils.rs"],
+        needs_crit=True, exact_ops=set(),
+        technique="Lean 4 theorems (exact equivariance under power-of-two scaling and negation for every rounding function commuting with them; shift and permutation at exact arithmetic) + metamorphic relations checked bit-for-bit on the implementation",
+        level_text="Kernel-checked theorems over the model: for every rounding function fl with fl(a x) = a fl(x) (a = 2^e in IEEE without over/underflow) scaling the "
+                   "data by a scales every register, the mean, the standard deviation and every bound of the arithmetic, paired and unpaired intervals by exactly a; "
+                   "for every odd fl negating the data mirrors the interval exactly and exchanges upper and lower; at exact arithmetic a shift moves the bounds by "
+                   "the shift and a permutation leaves them unchanged; geometric / harmonic scale at exact arithmetic. On the implementation: scaled and negated "
+                   "data must give bit-identical scaled / mirrored bounds (f32 and f64, exponents up to +-200), shifts and reorderings (all permutations of a "
+                   "5-element sample, random ones beyond) must agree within a conditioning-aware rounding tolerance.",
+        level_note="Trusted: Lean kernel + 3 standard axioms; 'fl commutes with 2^e' is a hypothesis about IEEE arithmetic (true without overflow/underflow; the "
+                   "generator keeps magnitudes in range). For unpaired reorderings the external t quantile is only as smooth as its own accuracy (allowance "
+                   "|c1-c2|/|c| of the half-width).",
+        rule="60 (quick) / 400 (thorough) data sets per producer {arith, paired, unpaired, geo, harm} x {f32, f64} x {scale 2^e, negate, shift, reorder} + all 120 "
+             "permutations of a 5-element sample every 20th round; distinct by sha1 of the input",
+    ),
 }
